@@ -370,11 +370,21 @@ namespace vh
                     }
                     else if (oh.mst)
                     {
-                        // the routing method is read at every update
-                        oh.mst->m_route_method = s["r"].as_str() == "basic"
-                                                     ? fs::mst_route_method::basic
-                                                     : fs::mst_route_method::carve;
-                        o.str("r", s["r"].as_str());
+                        // both members are public (and read-write in the Python bindings)
+                        if (s.has("r"))
+                        {
+                            oh.mst->m_route_method = s["r"].as_str() == "basic"
+                                                         ? fs::mst_route_method::basic
+                                                         : fs::mst_route_method::carve;
+                            o.str("r", s["r"].as_str());
+                        }
+                        if (s.has("m"))
+                        {
+                            oh.mst->m_basin_method = s["m"].as_str() == "boruvka"
+                                                         ? fs::mst_method::boruvka
+                                                         : fs::mst_method::kruskal;
+                            o.str("m", s["m"].as_str());
+                        }
                     }
                     emit(o.done());
                 }
